@@ -90,9 +90,9 @@ def read_oracle(s):
                 return (("get_w", "destination_missing", s[1][0]), "get_w(%s) = %s does not name the destination" % (sshow(s), w))
         except Exception as ex:
             return (exc_sig("get_w", ex), "%s: %s on %s" % (type(ex).__name__, ex, sshow(s)))
-        r = read_part(s[2], lambda mr: build(s).get_r(mr), "aff")
+        r = read_part(s[2], lambda: build(s), "aff")
         return r
-    return read_part(s, lambda mr: build(s).get_r(mr), s[0])
+    return read_part(s, lambda: build(s), s[0])
 
 
 def read_part(s, getr, top):
@@ -100,8 +100,16 @@ def read_part(s, getr, top):
     ids = sids(s)
     e = build(s)
     try:
-        r0 = getr(False)
-        r1 = getr(True)
+        # both calls on ONE object, in both orders (client code asks the same lifted expression for both sets)
+        o = getr()
+        r0 = o.get_r(False)
+        r1 = o.get_r(True)
+        o2 = getr()
+        r1b = o2.get_r(True)
+        r0b = o2.get_r(False)
+        if set(map(str, r1)) != set(map(str, r1b)) or set(map(str, r0)) != set(map(str, r0b)):
+            return (("get_r", "result_depends_on_call_order", top), "%s: get_r() then get_r(mem_read=True) gives %s / %s, the other order %s / %s" % (
+                sshow(s), sorted(map(str, r0)), sorted(map(str, r1)), sorted(map(str, r0b)), sorted(map(str, r1b))))
         gi = ex_.get_expr_ids(build(s))
     except Exception as ex:
         return (exc_sig("get_r", ex), "%s: %s on %s" % (type(ex).__name__, ex, sshow(s)))
